@@ -1107,7 +1107,13 @@ func (s *runState) opRenumber() {
 	t := s.t
 	from := s.pickFd(false)
 	var to int32
-	switch t.Weighted(3, 3, 2, 1, 1) {
+	huge := false
+	switch t.Weighted(12, 12, 8, 4, 4, 1) {
+	case 5:
+		// a target far beyond anything open: the table may grow that far or the call may be refused, but
+		// a refused renumber leaves the source descriptor as it was
+		to = int32(1<<20) + int32(t.Choose(3))*int32(1<<19)
+		huge = true
 	case 0:
 		to = s.pickFd(true) // onto open
 	case 1:
@@ -1140,6 +1146,14 @@ func (s *runState) opRenumber() {
 	}
 	got, ok := s.call("fd_renumber", uint64(uint32(from)), uint64(uint32(to)))
 	if !ok {
+		return
+	}
+	if huge && want == 0 && got != 0 && !s.faulty {
+		// refused (a limit on descriptor numbers is fine): all or nothing
+		if e, ok := s.call("fd_fdstat_get", uint64(uint32(from)), offStat); ok && e != 0 {
+			s.res.Fail("fd-lost", "%s was refused with %s, and descriptor %d is gone afterwards (fd_fdstat_get: %s): a refused renumber must leave its source alone", what, w.ErrnoName(got), from, w.ErrnoName(e))
+		}
+		s.shape = append(s.shape, "fd_renumber:huge-refused")
 		return
 	}
 	if s.faultRelax(what, got, want) {
